@@ -309,6 +309,16 @@ func (c *Conn) Write(p []byte) (n int, err error) {
 	if c.failedW {
 		c.WritesAfterFail++
 	}
+	if len(p) == 0 && !w.PipeLike {
+		// A Write of nothing (net.Buffers with an empty element on a
+		// connection without writev, e.g. TLS) touches no socket: it fails
+		// only when the connection was closed locally. On net.Pipe it is a
+		// rendezvous with the reader like any other Write (below).
+		if c.closed {
+			return 0, c.closedErr("write")
+		}
+		return 0, nil
+	}
 	for {
 		if c.closed {
 			return n, c.closedErr("write")
@@ -324,7 +334,7 @@ func (c *Conn) Write(p []byte) (n int, err error) {
 				fi = i
 			}
 		}
-		if fi < 0 || c.wfaults[fi].Off >= len(c.Out)+len(rest) {
+		if fi < 0 || c.wfaults[fi].Off >= len(c.Out)+len(rest) && !(len(p) == 0 && c.wfaults[fi].Off == len(c.Out)) {
 			// Note: a fault exactly at the end of this write fires on the next one.
 			c.accept(rest)
 			return len(p), nil
